@@ -11,7 +11,7 @@
    /repo into Gen/GenSchemas.v, Gen/GenUpdateWiring.v, Gen/GenSchemaNames.v on every run. *)
 From Coq Require Import String List ZArith NArith Bool Sorting.Sorted.
 From Verif Require Import Base.Prelude Model.Schema Model.Update Model.FunctionStore Spec.UpdateSpec.
-From Verif Require Import Proofs.UpdateBasics Proofs.UpdateRefine Proofs.UpdateStep Proofs.UpdateRun.
+From Verif Require Import Proofs.UpdateBasics Proofs.UpdateRefine Proofs.UpdateStep Proofs.UpdateRun Proofs.UpdateHist.
 From Verif Require Import Gen.GenSchemas Gen.GenUpdateWiring Gen.GenSchemaNames.
 
 (* Every history of Init / Update (any API family: local, reply, notify; full, partial,
@@ -19,9 +19,12 @@ From Verif Require Import Gen.GenSchemas Gen.GenUpdateWiring Gen.GenSchemaNames.
    Snapshot: at every step the data the store returns is the fold of the rules over the
    applied updates (same_map), holds one item per identifier, is ordered by numeric
    identifier, and re-applying the previous simple update changed nothing — for every
-   clause the scope does not excuse.  Excused: everything after an ill-formed update
-   list or a remote write (C04's subject) until the next well-formed full update, and
-   every type whose schema is not well-formed (none with an identifier on this tree). *)
+   clause the scope does not excuse.  An update that is not applied (rejected with an
+   error, panicking, not persisted — local, reply / notify, or a refused remote write) is
+   skipped by the fold: the data must be exactly what it was.  An accepted remote write is
+   judged by C04; here the fold re-starts from the data it leaves.  Excused: everything after
+   an ill-formed update list or write until the next well-formed full update, and every type
+   whose schema is not well-formed (none with an identifier on this tree). *)
 Theorem C02_trace_accepted_partial : forall ops,
   accepted (judge minit sinit (snd (run init ops))) = true.
 Proof. exact run_accepted. Qed.
